@@ -182,13 +182,28 @@ fn flag_programs() -> &'static Vec<Case> {
     static S: std::sync::OnceLock<Vec<Case>> = std::sync::OnceLock::new();
     S.get_or_init(|| super::c01::flag_slice().iter().map(|c| Case { x: json!({ "alpha": [0x61, 0x41, 0x0A] }), ..c.clone() }).collect())
 }
+/// the themed shapes of C01's generator, validated on their own haystack and on all short haystacks over the pattern's characters
+fn gen_themed(src: &mut Src, tier: Tier) -> Case {
+    let c = super::c01::gen_themed(src, tier);
+    let mut alpha: Vec<u32> = vec![];
+    for ch in c.hay.chars().map(|c| c as u32).chain(c.pat.iter().copied().filter(|c| *c > 0x7F || (*c as u8).is_ascii_alphanumeric() || *c == 0x0A)) {
+        if !alpha.contains(&ch) && alpha.len() < 3 {
+            alpha.push(ch);
+        }
+    }
+    if alpha.is_empty() {
+        alpha.push(0x61);
+    }
+    Case { hay: String::new(), start: 0, x: json!({ "alpha": alpha, "hays": [c.hay] }), ..c }
+}
+pub static VTH: Variant = Variant { name: "themed", choice_len: 400, gen: gen_themed, check: check_q };
 pub static VF: Variant = Variant { name: "exhaustive_flag_slice", choice_len: 1, gen: gen_flag, check: check_3 };
 
 pub static V: Variant = Variant { name: "opt_vs_noopt_L4", choice_len: 400, gen, check: check_q };
 pub static VT: Variant = Variant { name: "opt_vs_noopt_L5", choice_len: 400, gen, check: check_t };
 
 pub fn variants() -> Vec<&'static Variant> {
-    vec![&V, &VT, &VF]
+    vec![&V, &VT, &VF, &VTH]
 }
 
 fn small_programs() -> &'static Vec<Case> {
@@ -206,6 +221,7 @@ pub fn run(ctx: &Ctx) -> i32 {
     ctx.run_list(&V, small_programs());
     let fp: Vec<Case> = flag_programs().iter().enumerate().filter(|(i, _)| ctx.tier == Tier::Thorough || i % 2 == 0).map(|(_, c)| c.clone()).collect();
     ctx.run_list(&VF, &fp);
+    ctx.run_variant(&VTH, ctx.scale(60_000, 1_000_000));
     match ctx.tier {
         Tier::Quick => ctx.run_variant(&V, ctx.scale(24_000, 0)),
         Tier::Thorough => {
